@@ -23,7 +23,15 @@ from harness import nodelib as NL
 from harness.common import clist
 
 HEADER = "From MP Require Import Model.EditsRun.\n"
-NAME_STR = ["a", "b"]
+NAME_STR = ["alpha", "beta"]      # more than one character: single-character strings are singletons in CPython
+
+
+def fresh(s):
+    """a NEW str object equal to s (never a shared literal): `is`-for-`==` slips must show"""
+    r = "".join(list(s))
+    assert r == s and (len(s) < 2 or r is not s)
+    return r
+
 EXH_IDX = [None, 0, 1, -1]
 RAND_IDX = [None, None, None, 0, 1, 2, 3, -1, -2, -3, 7, -7]
 
@@ -34,7 +42,7 @@ def mk_objects(names, state):
     from metapype.model.node import Node
     NL.reset_store()
     kids, parents, reg = state
-    objs = [Node(NAME_STR[names[i]], id=f"n{i}") for i in range(len(names))]
+    objs = [Node(fresh(NAME_STR[names[i]]), id=fresh(f"n{i}")) for i in range(len(names))]
     for i, o in enumerate(objs):
         o._children = [objs[c] for c in kids[i]]
         o._parent = None if parents[i] is None else objs[parents[i]]
@@ -251,17 +259,15 @@ def q_observed(objs, nnames, paths, state):
     out = []
     for i, o in enumerate(objs):
         for nm in range(nnames):
-            s = NAME_STR[nm]
-            out.append(one(o.find_child(s)))
-            out.append(many(o.find_all_children(s)))
-            out.append(one(o.find_descendant(s)))
+            out.append(one(o.find_child(fresh(NAME_STR[nm]))))
+            out.append(many(o.find_all_children(fresh(NAME_STR[nm]))))
+            out.append(one(o.find_descendant(fresh(NAME_STR[nm]))))
             acc = [o]
-            r = o.find_all_descendants(s, acc)
+            r = o.find_all_descendants(fresh(NAME_STR[nm]), acc)
             out.append(many(acc) if r is None else ["returned", repr(r)])
         for path in paths:
-            sp = [NAME_STR[x] for x in path]
-            out.append(one(o.find_single_node_by_path(sp)))
-            out.append(many(o.find_all_nodes_by_path(sp)))
+            out.append(one(o.find_single_node_by_path([fresh(NAME_STR[x]) for x in path])))
+            out.append(many(o.find_all_nodes_by_path([fresh(NAME_STR[x]) for x in path])))
         out.append(many(o.get_ancestry()) if parent_chain_terminates(state[1], i) else "LOOP")
         for c in objs:
             ci = o.child_index(c)
@@ -548,6 +554,44 @@ def directed():
     ]
 
 
+def big_siblings(ctx, nnames):
+    """One sibling list with more than 256 children (indices past CPython's small-int cache):
+    shifts, inserts, removals, replacements around positions 255-258 and at both ends, and all
+    queries on that state.  Returns (names, state, transitions) for the Coq side."""
+    rng = ctx.rng
+    nkids = 300
+    n = nkids + 3                       # node 0 lists 1..300; 301, 302 detached spares
+    names = [0] + [0 if rng.random() < 0.7 else 1 for _ in range(nkids)] + [0, 1]
+    order = list(range(1, nkids + 1))
+    rng.shuffle(order)
+    kids = [tuple(order)] + [()] * (n - 1)
+    parents = [None] + [0] * nkids + [None, None]
+    st = (tuple(kids), tuple(parents), tuple(True for _ in range(n)))
+    chk = Checker(ctx, names, nnames, [[], [0], [1]])
+    spots = [0, 1, 127, 128, 254, 255, 256, 257, 258, 298, 299]
+    ops = []
+    for pos_ in spots:
+        c = order[pos_]
+        for d in "LR":
+            for sib in (True, False):
+                ops.append(("shift", 0, c, d, sib))
+    for ix in (255, 256, 257, 258, 300, 301, -1, -43, -44, -45, -300, -301):
+        ops.append(("add", 0, 301, ix))
+    for pos_ in (255, 256, 257, 299):
+        ops.append(("remove", 0, order[pos_]))
+        spare = 301 if names[order[pos_]] == 0 else 302
+        ops.append(("replace", 0, order[pos_], spare, False))
+    ops.append(("clear", 0))
+    trans = []
+    for op in ops:
+        st2, ret = chk.step(st, op, [["(state: node 0 lists 300 children)"], list(op)])
+        ctx.case(("big", op))
+        trans.append((op, st2, ret))
+    ctx.count("big-sibling-list-transitions", len(trans))
+    chk.queries(st, [["(state: node 0 lists 300 children)"]])
+    return names, st, trans
+
+
 def run_directed(ctx, name, names, ops, in_claim, nnames, paths):
     """Returns (ops, obs) for the Coq side; statement checks only when in the claim."""
     st = initial_state(len(names))
@@ -589,7 +633,8 @@ def run(ctx):
                          "remove_children; proviso-violating attachments skipped, every failing operand combination kept) applied to every distinct "
                          "state reachable in < %d edits from 4 detached nodes (thorough: until no new state appears), for each name assignment; all queries (2 names, %d paths, every "
                          "node / node pair) on every state reached; plus random histories of length 40-60 over 10-12 nodes and directed regression "
-                         "histories; non-trivial = distinct (name assignment, state, operation)") % (EXH_IDX, depth, len(paths_small))
+                         "histories; one sibling list of 300 children (shift / insert / remove / replace around positions 255-258 and the ends, all queries); every "
+                         "name is a fresh str object; non-trivial = distinct (name assignment, state, operation)") % (EXH_IDX, depth, len(paths_small))
     jobs = []        # (name, text, describe(j) -> replay fragment)
     describe = {}
     universes = [[0, 0, 1, 0]] + ([[0, 1, 0, 1], [0, 0, 0, 0]] if thorough else [])
@@ -655,6 +700,11 @@ def run(ctx):
                 f"Eval vm_compute in mismatches obs_eqb (run_hist {len(names)} s0 ops) want.\n")
         jobs.append((nm, text))
         describe[nm] = ("history", names, ops, obs)
+    bnames, bst, btrans = big_siblings(ctx, nnames)
+    for bi in range(0, len(btrans), 12):
+        nm = f"C09_big_{bi // 12}"
+        jobs.append(job_ops(nm, bnames, bst, btrans[bi:bi + 12]))
+        describe[nm] = ("ops", bnames, "node 0 lists 300 children", btrans[bi:bi + 12], [])
     # batch the small per-state files into larger ones
     merged, mdesc = merge_jobs(jobs)
     res = common.coq_eval_many(merged, timeout=1200)
